@@ -49,6 +49,23 @@ def check_environment(spec):
     return {"repo": repo, "hash_seed": got, "python": sys.version.split()[0]}
 
 
+def run_guarded_case(eng, case, tmo, keep_log=False):
+    """run_case under the wall-clock guard.  A timeout makes the run
+    INCONCLUSIVE -- except where the engine can say that the library was inside a
+    call that must terminate (an edit primitive): then it is that call's violation."""
+    try:
+        if keep_log:
+            return guarded(lambda: eng.run_case(case, keep_log=True), tmo)
+        return guarded(lambda: eng.run_case(case), tmo)
+    except RunTimeout:
+        res = {"violations": [], "inconclusive": "TIMEOUT", "nontrivial": False,
+               "stats": {}, "states": [], "reach": {}, "log_digest": None, "case_digest": None}
+        ctx = getattr(eng, "timeout_context", None)
+        if ctx is not None:
+            res["violations"] = ctx(case) or []
+        return res
+
+
 def run_batch(spec):
     from sim.rng import Rng
     eng = _engine(spec["engine"])
@@ -60,12 +77,7 @@ def run_batch(spec):
         try:
             case = eng.gen_case(rng, spec["tier"], spec.get("params"))
             t0 = time.perf_counter()
-            try:
-                res = guarded(lambda: eng.run_case(case), tmo)
-            except RunTimeout:
-                res = {"violations": [], "inconclusive": "TIMEOUT", "nontrivial": False,
-                       "stats": {}, "states": [], "reach": {}, "log_digest": None,
-                       "case_digest": None}
+            res = run_guarded_case(eng, case, tmo)
             row.update(res)
             row["wall_ms"] = int(1000 * (time.perf_counter() - t0))
             if res["violations"] or spec.get("want_cases") or len(out) < spec.get("samples", 1):
@@ -79,8 +91,7 @@ def run_batch(spec):
 
 def run_replay(spec):
     eng = _engine(spec["engine"])
-    res = guarded(lambda: eng.run_case(spec["case"], keep_log=spec.get("keep_log", False)),
-                  spec.get("run_timeout_s", 120))
+    res = run_guarded_case(eng, spec["case"], spec.get("run_timeout_s", 60), spec.get("keep_log", False))
     return {"result": res}
 
 
@@ -98,9 +109,7 @@ def run_minimise(spec):
 
     def fails(c):
         try:
-            r = guarded(lambda: eng.run_case(c), 20)
-        except RunTimeout:
-            return None
+            r = run_guarded_case(eng, c, 20)
         except Exception:
             return None
         for v in r["violations"]:
